@@ -807,6 +807,41 @@ func (rn *runner) runCase(idx int, cs *caseSpec) int {
 						o.Res = "refused"
 					}
 				}
+			case "gstore":
+				// a store during which the stale clean-up sleepers run: the writer is parked in the clock read it
+				// makes between its size pre-check and its write (a point where it can be descheduled), every due
+				// sleeper is fired and finishes, then the writer goes on
+				k := keyOf(cs, o.Key)
+				usedKeys[o.Key] = true
+				sNs := clk.VClock.Now().UnixNano()
+				o.TNs = sNs - base.UnixNano()
+				r := h.addStore(o.Key, k, o, sNs, 0)
+				clk.VClock.ArmNowGateFor("MemoryCache")
+				res := make(chan int, 1)
+				go func() { res <- tg.store(k, o) }()
+				parked := clk.VClock.WaitNowGateParked(2 * time.Second)
+				firedHere := 0
+				if parked {
+					for _, w := range clk.Pending() {
+						if !w.Deadline.After(time.Unix(0, sNs)) {
+							clk.Fire(w.ID)
+							fires++
+							firedHere++
+						}
+					}
+					// the sleepers have finished when only the parked writer is left besides the registered sleepers
+					start := time.Now()
+					for runtime.NumGoroutine() != rn.baseG+len(clk.Pending())+1 && time.Since(start) < 5*time.Second {
+						runtime.Gosched()
+					}
+					rn.v.Count("stores_overtaken_by_their_key's_stale_sleeper", 1)
+				}
+				clk.VClock.OpenNowGate()
+				r.Accepted = <-res
+				o.Res = fmt.Sprintf("parked=%v sleepers_fired=%d accepted=%d", parked, firedHere, r.Accepted)
+				if cs.Kind == "raw" && r.Accepted == 1 {
+					h.latest[r.OKey] = r
+				}
 			case "del":
 				k := keyOf(cs, o.Key)
 				tg.(*rawT).c.Del(k.URL)
@@ -1258,6 +1293,36 @@ func genRaw(r *sim.Rand, idx int) caseSpec {
 	return cs
 }
 
+// genOvertaken: a size-limited MemoryCache; a key expires, its clean-up sleeper is late, the key is stored again
+// and the sleeper runs in the middle of that store; then distinct keys are stored until the cache refuses, and
+// a sweep adds up what is served.
+func genOvertaken(r *sim.Rand, idx int) caseSpec {
+	cs := caseSpec{Kind: "raw", Policy: "lazy", FracNs: fracOf(r)}
+	pad := r.Range(40, 90)
+	pfx := fmt.Sprintf("o%d", idx)
+	size := len(pfx) + 3 + 1 + pad // id "<pfx>-NN", '|', pad
+	cs.MaxRaw = size*r.Range(2, 4) + r.Intn(size)
+	for i := 0; i < 8; i++ {
+		cs.Keys = append(cs.Keys, keySpec{Method: "-", URL: fmt.Sprintf("k%d", i)})
+	}
+	n := 0
+	id := func() string { n++; return fmt.Sprintf("%s-%02d", pfx, n) }
+	ttlShort, ttlLong := int64(512), int64(512*600)
+	var ops []op
+	ops = append(ops, op{K: "store", Key: 0, ID: id(), Pad: pad, TTLk: ttlShort})
+	if r.Bool() {
+		ops = append(ops, op{K: "store", Key: 1, ID: id(), Pad: pad, TTLk: ttlLong})
+	}
+	ops = append(ops, op{K: "at", AtNs: ttlShort*ttlUnitNs + int64(r.Range(1, 1000))*1_000_000}) // expired, sleeper not fired
+	ops = append(ops, op{K: "gstore", Key: 0, ID: id(), Pad: pad + r.Intn(2)*r.Range(1, 30), TTLk: ttlLong})
+	for k := 2; k < 8; k++ {
+		ops = append(ops, op{K: "store", Key: k, ID: id(), Pad: pad, TTLk: ttlLong})
+	}
+	ops = append(ops, op{K: "sweep"})
+	cs.Ops = ops
+	return cs
+}
+
 func genSize(r *sim.Rand, idx int) caseSpec {
 	cs := caseSpec{Kind: "size", Policy: "prompt", FracNs: fracOf(r), MaxMB: sim.Pick(r, []float32{1, 0.5, 0.25}), Selected: []string{"id"}}
 	maxB := int(float64(cs.MaxMB) * 1024 * 1024)
@@ -1403,6 +1468,11 @@ func main() {
 			fmt.Printf("case %d kind=%s\n", i, cs.Kind)
 		}
 		rn.runCase(i, &cs)
+	}
+	olo, ohi := args.Share(args.Pick(64, 1200))
+	for i := olo; i < ohi && !rn.dead; i++ {
+		cs := genOvertaken(args.CaseRand(8_000_000+i), 8_000_000+i)
+		rn.runCase(8_000_000+i, &cs)
 	}
 	if v.Counters["hits"] == 0 || v.Counters["misses_after_expiry"] == 0 {
 		v.Inconclude("no replay or no miss after an expiry observed in this batch")
